@@ -138,11 +138,12 @@ pub fn gen_bigram(rng: &mut Rng, nr: usize, nl: usize, dual: bool, k_choice: Opt
             row[0] = "*".into();
         }
     }
-    if !right.is_empty() && rng.chance(0.02) {
-        // a feature string longer than the 4096-byte buffer of the CSV reader, with multi-byte characters
+    if !right.is_empty() && rng.chance(0.04) {
+        // a feature string longer than the 4096-byte buffer of the CSV reader; a multi-byte character lies across
+        // the 4096th byte
         let i = rng.below(right.len());
         if !right[i].is_empty() {
-            right[i][0] = format!("L{}", "あ".repeat(1400 + rng.below(50)));
+            right[i][0] = format!("{}{}", ["LL", "L", "LLLL"][rng.below(3)], "あ".repeat(1400 + rng.below(50)));
         }
     }
     if !right.is_empty() && !left.is_empty() && rng.chance(0.8) {
@@ -193,6 +194,14 @@ pub fn gen_bigram(rng: &mut Rng, nr: usize, nl: usize, dual: bool, k_choice: Opt
         }
         let c = if rng.chance(0.1) { 0 } else { rng.range(-bound, bound) as i32 };
         costs.push((a, b, c));
+    }
+    if let Some(long) = rfeats.iter().find(|f| f.len() > 4000) {
+        // the long feature takes part in the sums
+        for b in lfeats.iter().take(3) {
+            if !b.contains('/') && b != "*" && seen.insert((long.clone(), b.clone())) {
+                costs.push((long.clone(), b.clone(), (bound / 2) as i32 + 1));
+            }
+        }
     }
     Conn::Bigram { right, left, costs, dual }
 }
